@@ -154,7 +154,7 @@ func getRig(t vh.TB) *rig {
 		return fp, agent
 	}
 	r.fp, r.agent = mk(r.backend.Addr)
-	r.fp.ListHook = func(w http.ResponseWriter, rq *http.Request) bool {
+	r.fp.SetListHook(func(w http.ResponseWriter, rq *http.Request) bool {
 		r.mu.Lock()
 		if len(r.listFaults) == 0 {
 			r.mu.Unlock()
@@ -178,8 +178,8 @@ func getRig(t vh.TB) *rig {
 			hijackAnd(w, []byte("\x00\x01\x02 definitely not HTTP\r\n\r\n"), false)
 		}
 		return true
-	}
-	r.fp.FetchHook = func(q *vh.FPRequest, w http.ResponseWriter, rq *http.Request) bool {
+	})
+	r.fp.SetFetchHook(func(q *vh.FPRequest, w http.ResponseWriter, rq *http.Request) bool {
 		r.mu.Lock()
 		f := r.fetchFault[q.ID]
 		r.fetchCount[q.ID]++
@@ -221,8 +221,8 @@ func getRig(t vh.TB) *rig {
 			w.Write(q.Wire)
 		}
 		return true
-	}
-	r.fp.UploadHook = func(q *vh.FPRequest, w http.ResponseWriter, rq *http.Request) bool {
+	})
+	r.fp.SetUploadHook(func(q *vh.FPRequest, w http.ResponseWriter, rq *http.Request) bool {
 		r.mu.Lock()
 		f := r.upFault[q.ID]
 		r.upCount[q.ID]++
@@ -248,7 +248,7 @@ func getRig(t vh.TB) *rig {
 			}
 		}
 		return true
-	}
+	})
 	closed := vh.FreePort()
 	r.fp2, r.agent2 = mk(fmt.Sprintf("127.0.0.1:%d", closed))
 	// warm-up of the first agent
@@ -665,7 +665,7 @@ func TestReplay(t *testing.T) {
 		}
 		if ok {
 			for i := 0; i < vh.ReplayRuns(); i++ {
-				rec.Check(t, &c, func() vh.Outcome { return runCase(t, &c) })
+				rec.Check(t, &c, func() vh.Outcome { return vh.Confirm(func(int) vh.Outcome { return runCase(t, &c) }) })
 			}
 			return
 		}
